@@ -24,17 +24,171 @@ RULE = ('one run = one seeded program on one Connection (plus an observer '
 BUDGET = {'quick': {'runs': 12000, 'wall': 300, 'chunk': 25},
           'thorough': {'runs': 1200000, 'wall': 1200, 'chunk': 200}}
 ASSUMPTIONS = [
-    'the object cache is large enough that no new object saved by a '
-    'savepoint is evicted (an evicted one keeps its state only in the '
-    'temporary store and cannot keep it when it is un-added)',
+    'four runs in five use an object cache large enough that nothing is '
+    'evicted inside a transaction; the fifth uses cache_size 1 or 3 (the '
+    'clean-up at a savepoint then evicts objects, also new ones it has '
+    'just saved) and half of those do not look at the objects right '
+    'after a savepoint (looking would re-activate them)',
     'an object that was a plain Python object (never added) keeps whatever '
     'attribute values it has after an abort; only ownership is checked',
 ]
-SHRINK = ['ops']
+SHRINK = ['ops', 'steps']
+
+
+def gen_multi(r, tier):
+    """A multi-database: the primary connection and a secondary one
+    obtained through get_connection(); which of them joins the
+    transaction, when close() is tried, how the transaction ends."""
+    steps = []
+    for _ in range(r.randint(1, 4)):
+        steps.append({'mods': r.choice(('primary', 'secondary', 'secondary',
+                                        'both', 'none')),
+                      'new': r.random() < 0.3,
+                      'close_inside': r.random() < 0.7,
+                      'end': r.choice(('commit', 'abort', 'abort'))})
+    return {'arm': 'multi', 'kind': r.choice(('file', 'mapping')),
+            'steps': steps, 'ops': [], 'bufsize': 8192, 'tier': tier}
+
+
+def run_multi(case):
+    from ZODB.MappingStorage import MappingStorage
+    from ZODB.POSException import ConnectionStateError
+    from .. import ctx
+    from .. import dbh
+    from .. import objs
+    sim = ctx.activate(ctx.Sim(case['seed'], bufsize=case['bufsize']))
+    viol = []
+    trace = []
+
+    def flag(o, x):
+        if len(viol) < 20:
+            viol.append((o, x))
+    dbs = {}
+    main = dbh.make_db(sim, case['kind'], databases=dbs,
+                       database_name='main')
+    aux = dbh.make_db(sim, 'x', storage=MappingStorage('aux'),
+                      databases=dbs, database_name='aux')
+    want = {'a': 1, 'x': 2}
+    counter = [10]
+    try:
+        A = dbh.Client(main, 'A')
+        c = A.open()
+        c.root()['a'] = objs.Cell(1)
+        c.get_connection('aux').root()['x'] = objs.Cell(2)
+        A.commit()
+        A.close()
+        for st in case['steps']:
+            A = dbh.Client(main, 'A')       # a new user of the pool
+            c = A.open()
+            sec = c.get_connection('aux')
+            # a reused pair of connections shows committed state only
+            got = {'a': c.root()['a'].token, 'x': sec.root()['x'].token}
+            if got != want:
+                flag('reused-connection-state', 'a connection taken from '
+                     'the pool reads %r, committed is %r' % (got, want))
+            new = dict(want)
+            if st['mods'] in ('primary', 'both'):
+                counter[0] += 1
+                c.root()['a'].token = new['a'] = counter[0]
+            if st['mods'] in ('secondary', 'both'):
+                counter[0] += 1
+                sec.root()['x'].token = new['x'] = counter[0]
+                if st['new']:
+                    sec.root()['n%d' % counter[0]] = objs.Cell(0)
+            joined = st['mods'] != 'none'
+            closed = False
+            if st['close_inside']:
+                try:
+                    c.close()
+                    closed = True
+                except ConnectionStateError:
+                    if not joined:
+                        flag('close-refused', 'close() outside a '
+                             'transaction was refused')
+                else:
+                    if joined:
+                        flag('close-inside-transaction-accepted',
+                             'close() of the primary connection was '
+                             'accepted while %s had joined the transaction'
+                             % st['mods'])
+                trace.append('close-%s' % ('ok' if closed else 'refused'))
+                if not closed and joined:
+                    # a refused close has no effect: the connections go on
+                    # working in their transaction
+                    try:
+                        counter[0] += 1
+                        c.root()['a'].token = new['a'] = counter[0]
+                        counter[0] += 1
+                        sec.root()['x'].token = new['x'] = counter[0]
+                    except Exception as e:      # noqa: B902
+                        flag('refused-close-has-effect', 'after close() '
+                             'was refused (%s joined) changing an object '
+                             'raises %s: %s' % (st['mods'],
+                                                type(e).__name__,
+                                                str(e)[:60]))
+                        A.abort()
+                        try:
+                            c.close()
+                        except Exception:   # noqa: B902
+                            pass
+                        break
+            if st['end'] == 'commit':
+                try:
+                    A.commit()
+                    want = new
+                except Exception as e:      # noqa: B902
+                    flag('commit-raises', '%s: %s' % (type(e).__name__,
+                                                      str(e)[:80]))
+                    A.abort()
+            else:
+                A.abort()
+            trace.append('%s-%s' % (st['mods'], st['end']))
+            if not closed:
+                try:
+                    c.close()
+                except Exception as e:      # noqa: B902
+                    flag('close-refused', 'close() after the transaction '
+                         'ended raised %s: %s' % (type(e).__name__,
+                                                  str(e)[:80]))
+            # what is committed, seen by an independent pair
+            B = dbh.Client(main, 'B')
+            cb = B.open()
+            got = {'a': cb.root()['a'].token,
+                   'x': cb.get_connection('aux').root()['x'].token}
+            if got != want:
+                flag('committed-state', 'after %r a fresh connection reads '
+                     '%r, expected %r' % (st, got, want))
+            B.abort()
+            B.close()
+    except Exception as e:      # noqa: B902
+        import traceback
+        flag('program-raises', '%s: %s | %s' % (
+            type(e).__name__, str(e)[:80],
+            ' / '.join(x.strip()[:70] for x in
+                       traceback.format_exc().strip().splitlines()[-5:-1])))
+    finally:
+        for d in (main, aux):
+            try:
+                d.close()
+            except Exception:       # noqa: B902
+                pass
+    stats = {'sim_time_s': sim.clock.elapsed(), 'arm:multi-database': 1,
+             'kind:' + case['kind']: 1}
+    for t in trace:
+        stats['multi:' + t] = stats.get('multi:' + t, 0) + 1
+    return {'violations': [{'oracle': o, 'detail': x} for o, x in viol],
+            'stats': stats,
+            'keys': ['multi|%s|%s' % (case['kind'], ','.join(trace))],
+            'evals': 1,
+            'sample': {'arm': 'multi', 'steps': case['steps'],
+                       'trace': trace},
+            'digest': sim.digest(trace, viol)}
 
 
 def gen(seed, tier):
     r = random.Random(seed)
+    if r.random() < 0.06:
+        return gen_multi(r, tier)
     kind = r.choice(('file', 'file', 'mapping', 'demo:mapping:mapping'))
     # a third of the programs also take savepoints (rollbacks are C12's):
     # the outcome of a transaction must reach objects whose changes were
@@ -72,6 +226,8 @@ def result(m, case, prefix):
 
 
 def run(case):
+    if case.get('arm') == 'multi':
+        return run_multi(case)
     m = CS.run_program(case, bool(case.get('savepoints')))
     return result(m, case, 'c11')
 
